@@ -636,6 +636,47 @@ func roundTrip(c Case) *hx.Failure {
 // ---------------------------------------------------------------------------
 // the format tool
 
+// verifyFiles judges the directory after one run of the format tool (pass 1: source files, pass 2: files the tool
+// formatted itself): foreign and unparseable files are untouched, every other file parses to the tree of its source.
+func verifyFiles(c Case, dir string, pass int, pf *hx.Failure, orig func(int) (*parser.ASTNode, bool), nvalid, ninvalid, nforeign, nchanged *int) *hx.Failure {
+	var fail *hx.Failure
+	for i, fe := range c.Files {
+		if pf != nil || fail != nil {
+			break
+		}
+		b, err := os.ReadFile(filepath.Join(dir, filepath.FromSlash(fe.Path)))
+		if err != nil {
+			return hx.Failf("formatfiles:file-lost", "%s cannot be read after FormatFiles (run %d): %v", fe.Path, pass, err)
+		}
+		after := string(b)
+		if after != fe.Content {
+			*nchanged++
+		}
+		otree, valid := orig(i)
+		switch {
+		case !strings.HasSuffix(fe.Path, ".ecal"):
+			*nforeign++
+			if after != fe.Content {
+				fail = hx.Failf("formatfiles:foreign-file-modified", "%s (extension does not match) was rewritten (run %d): %q -> %q", fe.Path, pass, clip(fe.Content), clip(after))
+			}
+		case !valid:
+			*ninvalid++
+			if after != fe.Content {
+				fail = hx.Failf("formatfiles:unparseable-file-modified", "%s does not parse but was rewritten (run %d): %q -> %q", fe.Path, pass, clip(fe.Content), clip(after))
+			}
+		default:
+			*nvalid++
+			t2, perr, ppf := parse(after)
+			if ppf != nil || perr != nil {
+				fail = hx.Failf("formatfiles:unparseable-written", "%s: %q was replaced by %q which does not parse (run %d of the tool): %v %v", fe.Path, clip(fe.Content), clip(after), pass, perr, ppf)
+			} else if d := diffTrees(otree, t2); d != nil && !knownFileDiff(otree, d) {
+				fail = hx.Failf("formatfiles:"+d.sig, "%s: %q was replaced by %q which parses to a different tree (run %d of the tool): %s", fe.Path, clip(fe.Content), clip(after), pass, d.detail)
+			}
+		}
+	}
+	return fail
+}
+
 func runFiles(c Case) *hx.Failure {
 	dir, err := os.MkdirTemp("", "verif-c08-")
 	if err != nil {
@@ -672,42 +713,16 @@ func runFiles(c Case) *hx.Failure {
 		}
 	}
 	var ferr error
-	pf := hx.Guard(func() { ferr = tool.FormatFiles(dir, ".ecal") })
+	var pf *hx.Failure
 	key := fmt.Sprint(c.Files)
 	nvalid, ninvalid, nforeign, nchanged := 0, 0, 0, 0
 	var fail *hx.Failure
-	for i, fe := range c.Files {
-		if pf != nil || fail != nil {
-			break
-		}
-		b, err := os.ReadFile(filepath.Join(dir, filepath.FromSlash(fe.Path)))
-		if err != nil {
-			fail = hx.Failf("formatfiles:file-lost", "%s cannot be read after FormatFiles: %v", fe.Path, err)
-			break
-		}
-		after := string(b)
-		if after != fe.Content {
-			nchanged++
-		}
-		switch {
-		case !strings.HasSuffix(fe.Path, ".ecal"):
-			nforeign++
-			if after != fe.Content {
-				fail = hx.Failf("formatfiles:foreign-file-modified", "%s (extension does not match) was rewritten: %q -> %q", fe.Path, clip(fe.Content), clip(after))
-			}
-		case !origs[i].valid:
-			ninvalid++
-			if after != fe.Content {
-				fail = hx.Failf("formatfiles:unparseable-file-modified", "%s does not parse but was rewritten: %q -> %q", fe.Path, clip(fe.Content), clip(after))
-			}
-		default:
-			nvalid++
-			t2, perr, ppf := parse(after)
-			if ppf != nil || perr != nil {
-				fail = hx.Failf("formatfiles:unparseable-written", "%s: %q was replaced by %q which does not parse: %v %v", fe.Path, clip(fe.Content), clip(after), perr, ppf)
-			} else if d := diffTrees(origs[i].tree, t2); d != nil && !knownFileDiff(origs[i].tree, d) {
-				fail = hx.Failf("formatfiles:"+d.sig, "%s: %q was replaced by %q which parses to a different tree: %s", fe.Path, clip(fe.Content), clip(after), d.detail)
-			}
+	// the tool is run twice over the directory: the second run meets files it has formatted itself
+	for pass := 1; pass <= 2 && pf == nil && fail == nil; pass++ {
+		pf = hx.Guard(func() { ferr = tool.FormatFiles(dir, ".ecal") })
+		nvalid, ninvalid, nforeign, nchanged = 0, 0, 0, 0
+		if f := verifyFiles(c, dir, pass, pf, func(i int) (*parser.ASTNode, bool) { return origs[i].tree, origs[i].valid }, &nvalid, &ninvalid, &nforeign, &nchanged); f != nil {
+			fail = f
 		}
 	}
 	cl := []string{"kind.files"}
